@@ -1108,7 +1108,8 @@ def rule_eval_operand_is_text(check, rule):
                         continue
                     n += 1
                     check.analysed(meth)
-                    e = c.args[0]
+                    from .callgraph import resolve_once
+                    e = resolve_once(meth.node, c.args[0])
                     key = 'eval-text|%s.%s' % (ci.name, mname)
                     if isinstance(e, ast.Constant) and isinstance(e.value, str) or dominated_by(meth, c, _is_text_atom(norm(e))):
                         check.holds(rule, site_of(meth, c), 'eval() is handed text: a test at the call establishes it', key=key)
